@@ -473,6 +473,7 @@ type LoopSpec struct {
 	Invariants []*Clause
 	Modifies   []Expr // nil = not declared
 	HasMod     bool
+	ModFresh   bool // "loop N modifies fresh": besides the listed locations, objects allocated during this call may change
 }
 
 type FuncContract struct {
@@ -549,6 +550,7 @@ type CallSiteSpec struct {
 	Callee  string
 	Ordinal int
 	Clause  *Clause
+	Let     string // "at call X let NAME = E": spec-level name bound after the call
 	Target  string // "set" clauses: the scalar ghost that is assigned
 }
 
@@ -815,6 +817,13 @@ func parseContractLines(pkg string, lines []string) (*PkgContracts, error) {
 				}
 				ls.Invariants = append(ls.Invariants, &Clause{Kind: "invariant", Label: label, Src: src, E: e})
 			case "modifies":
+				if strings.TrimSpace(rest2) == "fresh" {
+					// the loop writes only objects allocated during this call
+					// (frame relative to the function's entry, not the loop's)
+					ls.HasMod = true
+					ls.ModFresh = true
+					break
+				}
 				locs, err := parseLocList(rest2)
 				if err != nil {
 					return nil, fmt.Errorf("%s: %s: %v", pkg, s, err)
@@ -851,6 +860,26 @@ func parseContractLines(pkg string, lines []string) (*PkgContracts, error) {
 			}
 			after := strings.TrimSpace(rest[strings.Index(rest, f[1])+len(f[1]):])
 			kw2, rest2 := splitKeyword(after)
+			if kw2 == "let" {
+				// at call NAME#K let X = E: E is evaluated in the state right
+				// after the call (argN, resultN available) and named X for
+				// the clauses evaluated later on the same path
+				k := strings.Index(rest2, "=")
+				if k <= 0 {
+					return nil, fmt.Errorf("%s: bad let clause %q", pkg, s)
+				}
+				lname := strings.TrimSpace(rest2[:k])
+				src := strings.TrimSpace(rest2[k+1:])
+				if lname == "" || strings.ContainsAny(lname, " \t[]().") {
+					return nil, fmt.Errorf("%s: bad let name in %q", pkg, s)
+				}
+				e, err := parseExpr(src)
+				if err != nil {
+					return nil, fmt.Errorf("%s: %s: %v", pkg, s, err)
+				}
+				cur.CallSites = append(cur.CallSites, &CallSiteSpec{Callee: callee, Ordinal: ord, Let: lname, Clause: &Clause{Kind: "calllet", Src: "let " + lname + " = " + src, E: e}})
+				continue
+			}
 			if kw2 == "set" {
 				// at call NAME#K set g = E (ghost assignment after the call)
 				name, e, err := parseSet(rest2)
